@@ -30,7 +30,8 @@ EXPLANATION = (
     "updated (parameter aliasing along the call chain, rebinding only under "
     "`is None`); R4.5 derived computations run on a deep copy; R4.6 wiring "
     "of -im/-om. The diagram is a function of the model; that this function "
-    "is deterministic (C03) is not claimed.")
+    "is deterministic (C03) is not claimed."
+    " R4.5 is a may-alias escape analysis (conditional expressions, views, shallow copies).")
 TRUSTED = ["pydantic validates EventInputsFile on load"]
 NOT_DECIDED = ["diagram-level equivalence (needs C03)"]
 ASSUMPTIONS: list[str] = []
